@@ -40,6 +40,16 @@ func init() {
 		"servitor/verifrt.Concrete": vrConcrete,
 		"servitor/verifrt.Symbolic": func(in *Interp, fr *frame, fn *ssa.Function, a []Value) (Value, bool) { return SBool{V: true}, true },
 		"servitor/verifrt.JSON":    vrJSON,
+		"servitor/verifrt.All":     vrAll,
+		"servitor/verifrt.Any":     vrAny,
+		"servitor/verifrt.InSet":   vrInSet,
+		"servitor/verifrt.IteInt":  vrIteInt,
+
+		// ---- utf8 (table-driven in the library; decoded symbolically here)
+		"unicode/utf8.DecodeRuneInString": utf8DecodeStr,
+		"unicode/utf8.DecodeRune":         utf8DecodeBytes,
+		"unicode/utf8.RuneCountInString":  utf8CountStr,
+		"unicode/utf8.ValidString":        utf8ValidStr,
 
 		// ---- strings.Builder
 		"(*strings.Builder).String":      sbString,
@@ -582,3 +592,77 @@ func mathTrunc(in *Interp, fr *frame, fn *ssa.Function, a []Value) (Value, bool)
 }
 
 var _ = fmt.Sprintf
+
+func vrAll(in *Interp, fr *frame, fn *ssa.Function, a []Value) (Value, bool) {
+	acc := in.tb.Bool(true)
+	for _, v := range variadicArgs(a[0]) {
+		acc = in.tb.And(acc, in.boolTerm(v.(SBool)))
+	}
+	return in.mkBool(acc), true
+}
+func vrAny(in *Interp, fr *frame, fn *ssa.Function, a []Value) (Value, bool) {
+	acc := in.tb.Bool(false)
+	for _, v := range variadicArgs(a[0]) {
+		acc = in.tb.Or(acc, in.boolTerm(v.(SBool)))
+	}
+	return in.mkBool(acc), true
+}
+func vrInSet(in *Interp, fr *frame, fn *ssa.Function, a []Value) (Value, bool) {
+	b := a[0].(SInt)
+	set := a[1].(Str)
+	acc := in.tb.Bool(false)
+	for i := 0; i < len(set.S); i++ {
+		acc = in.tb.Or(acc, in.tb.Eq(in.intTerm(b), in.byteTerm(set, i)))
+	}
+	return in.mkBool(acc), true
+}
+func vrIteInt(in *Interp, fr *frame, fn *ssa.Function, a []Value) (Value, bool) {
+	c := a[0].(SBool)
+	if c.T == nil {
+		if c.V {
+			return a[1], true
+		}
+		return a[2], true
+	}
+	return in.mkIntT(in.tb.Ite(c.T, in.intTerm(a[1].(SInt)), in.intTerm(a[2].(SInt)))), true
+}
+
+func utf8DecodeStr(in *Interp, fr *frame, fn *ssa.Function, a []Value) (Value, bool) {
+	s := a[0].(Str)
+	if len(s.S) == 0 {
+		return Tuple{mkInt(32, 0xFFFD), mkInt64(0)}, true
+	}
+	r, n := in.decodeRuneCached(s, 0)
+	return Tuple{r, mkInt64(int64(n))}, true
+}
+func utf8DecodeBytes(in *Interp, fr *frame, fn *ssa.Function, a []Value) (Value, bool) {
+	b := a[0].(Slice)
+	if b.L == 0 {
+		return Tuple{mkInt(32, 0xFFFD), mkInt64(0)}, true
+	}
+	r, n := in.decodeRuneCached(in.bytesToStr(b.B[:b.L]), 0)
+	return Tuple{r, mkInt64(int64(n))}, true
+}
+func utf8CountStr(in *Interp, fr *frame, fn *ssa.Function, a []Value) (Value, bool) {
+	s := a[0].(Str)
+	n := 0
+	for i := 0; i < len(s.S); n++ {
+		_, w := in.decodeRuneCached(s, i)
+		i += w
+	}
+	return mkInt64(int64(n)), true
+}
+func utf8ValidStr(in *Interp, fr *frame, fn *ssa.Function, a []Value) (Value, bool) {
+	s := a[0].(Str)
+	if s.IsConcrete() {
+		return nil, false
+	}
+	for i := 0; i < len(s.S); {
+		r, w := in.decodeRuneCached(s, i)
+		if w == 1 && r.T == nil && r.V == 0xFFFD {
+			return SBool{V: false}, true
+		}
+		i += w
+	}
+	return SBool{V: true}, true
+}
